@@ -497,7 +497,9 @@ def slave_case(col, case):
             exp = it["bits"]
         else:
             exp = [(it["miso"] >> (dw - 1 - i)) & 1 for i in range(n)]
-        if r["miso_bits"] != exp:
+        # MISO leaves the slave 3 system cycles after the SCK edge it saw through its synchroniser: it is only asked to be there at
+        # the next rising edge for half periods >= 4 (capture of MOSI, framing and length are judged at every speed)
+        if it["hp"] >= 4 and r["miso_bits"] != exp:
             viol.add("spi_slave/miso-data", "MISO at the rising edges %s, expected %s (miso=%s%s)"
                      % (r["miso_bits"], exp, hex(it["miso"]), ", loopback" if it["loop"] else ""), frame=k, half_period=it["hp"],
                      cs_setup=it["su"])
@@ -664,7 +666,7 @@ def cases(tier, seed):
     for rep in range(6 if q else 30):
         for dw in (8, 16, 32, 12):
             out.append({"cls": "spi_slave", "seed": "%d/C19/spi_slave/%d" % (seed, k), "dw": dw, "n": 6 if q else 10,
-                        "hps": [4, 5, 6, 8, 11], "su_min": 5})
+                        "hps": [2, 3, 4, 5, 6, 8, 11], "su_min": 5})
             k += 1
     return out
 
